@@ -22,7 +22,7 @@ ASSUMPTIONS = ["a disconnect request is only issued while a connection is up or 
                "a 'disconnected' announcement for an attempt that never came up is not a refutation",
                "the first login (key upload + reconnect) happens before the judged history starts",
                "the real socket/asyncore dispatchers are driven through 6 scripted lifecycles each over loopback TCP (peer close, local disconnect, refused connect, login failure, stream error with automatic reconnect, re-login); a bare timeout there is reported as a violation only together with the observed announcement counts"]
-REQUIRED = ["race_sweep_histories", "tick_race_paused_mid_step", "histories", "events", "checkpoints", "ev:connected", "ev:success", "ev:failure", "ev:stream-error", "ev:tick", "ev:pong",
+REQUIRED = ["pong_race_histories", "pong_delivered_inside_ping_send", "race_sweep_histories", "tick_race_paused_mid_step", "histories", "events", "checkpoints", "ev:connected", "ev:success", "ev:failure", "ev:stream-error", "ev:tick", "ev:pong",
             "ev:connected-held", "ev:release-handshake", "ev:socket-error", "ev:peer-close", "ev:disconnect-request", "auto_reconnects", "ping_timeouts", "pings_seen", "states_visited",
             "real_cases", "real_ok"]
 TIMEOUT = {"quick": 600, "thorough": 7200}
@@ -92,8 +92,9 @@ def partial_frame(r):
 class PingRacer(object):
     """Stops the keep-alive thread at its k-th line event inside protocol_iq/layer.py until resumed."""
 
-    def __init__(self, k):
+    def __init__(self, k, files=("protocol_iq/layer.py",)):
         self.k = k
+        self.files = tuple(files)
         self.n = 0
         self.at_point = threading.Event()
         self.resume = threading.Event()
@@ -109,7 +110,7 @@ class PingRacer(object):
             mon.use_tool_id(inject.TOOL, "vf-pingrace")
 
         def cb(code, lineno):
-            if not code.co_filename.endswith("protocol_iq/layer.py"):
+            if not code.co_filename.endswith(self.files):
                 return mon.DISABLE
             if threading.current_thread().__class__.__name__ != "YowPingThread":
                 return None
@@ -133,7 +134,7 @@ class PingRacer(object):
 EVENTS = ["connect-request", "connected", "connected-held", "release-handshake", "socket-error", "peer-close", "disconnect-request", "success", "failure", "stream-error:conflict",
           "stream-error:ack", "stream-error:xml-not-well-formed", "tick", "tick", "tick", "pong",
           "tick-race:peer-close", "tick-race:disconnect-request", "tick-race:socket-error",
-          "peer-close+connect-request", "socket-error+connect-request", "peer-close+reconnect-up"]
+          "peer-close+connect-request", "socket-error+connect-request", "peer-close+reconnect-up", "tick-pong-race"]
 
 
 class Ref(object):
@@ -191,6 +192,10 @@ class Ref(object):
             # the connection drops and the application asks for a new one before the stack's loop has turned (the deferred part of
             # the down announcement is still queued)
             return self.conn == "up"
+        if ev == "tick-pong-race":
+            # a tick on which a ping is due, and the server's pong arrives while the keep-alive thread has not yet returned from
+            # sending that ping (a fast round trip)
+            return self.conn == "up" and self.authed and not self.outstanding and self.next_due is not None and self.now + 1 >= self.next_due
         if ev.startswith("tick-race"):
             # the clock advances and, while the keep-alive thread is in the middle of its step, the connection goes down;
             # only where the tick alone would not time out
@@ -250,6 +255,9 @@ class Ref(object):
             self.apply("peer-close")
             self.apply("connect-request")
             return self.apply("connected")
+        elif ev == "tick-pong-race":
+            self.apply("tick")
+            return self.apply("pong")
         elif ev.startswith("tick-race"):
             self.now += 1
             self.race_ping_possible = self.next_due is not None and self.now >= self.next_due
@@ -426,6 +434,62 @@ def one_history(acc, seed, tag, forced=None):
                     W.hold_pump = False
             elif ev == "tick":
                 clock.tick()
+            elif ev == "tick-pong-race":
+                n_before = len(W.server.held_pings)
+                racer = PingRacer(1, files=("protocol_iq/layer.py", "yowsup/layers/__init__.py"))
+                answered = [False]
+
+                # stop the keep-alive thread at every line from now on until the ping is on the wire, then answer it while the
+                # thread is still inside its send
+                def every_line(code, lineno, _orig=None):
+                    pass
+                racer.k = -1          # never the counted stop: a custom callback below
+                import sys as _sys
+                mon = _sys.monitoring
+                try:
+                    mon.use_tool_id(inject.TOOL, "vf-pongrace")
+                except ValueError:
+                    mon.free_tool_id(inject.TOOL)
+                    mon.use_tool_id(inject.TOOL, "vf-pongrace")
+                at_point, resume = threading.Event(), threading.Event()
+                where = [None]
+
+                def cb(code, lineno):
+                    if not code.co_filename.endswith(("protocol_iq/layer.py", "yowsup/layers/__init__.py")):
+                        return mon.DISABLE
+                    if threading.current_thread().__class__.__name__ != "YowPingThread" or answered[0]:
+                        return None
+                    if len(W.server.inbound.get(A, [])) + len(W.server.held_pings) > n_before or any(t[0] == "iq" and t[1].get("xmlns") == "w:p" for t in W.server.inbound.get(A, [])):
+                        answered[0] = True
+                        where[0] = "%s:%d" % (code.co_name, lineno)
+                        at_point.set()
+                        resume.wait(10)
+                mon.register_callback(inject.TOOL, mon.events.LINE, cb)
+                mon.set_events(inject.TOOL, mon.events.LINE)
+                mon.restart_events()
+                try:
+                    clock.tick()
+                    if at_point.wait(2.0):
+                        # the ping is on its way: the server processes it and answers at once, the client reads the pong
+                        W.run(max_steps=W.steps + 4000)
+                        pend = W.server.held_pings.pop(0) if W.server.held_pings else None
+                        if pend:
+                            W.server.to_client(A, ("iq", {"id": pend, "type": "result", "from": "s.whatsapp.net"}, [], None))
+                            W.run(max_steps=W.steps + 4000)
+                            acc.count("pong_delivered_inside_ping_send")
+                            acc.seen("pong_race_points", where[0])
+                finally:
+                    resume.set()
+                    mon.set_events(inject.TOOL, 0)
+                    mon.register_callback(inject.TOOL, mon.events.LINE, None)
+                    mon.free_tool_id(inject.TOOL)
+                if not answered[0] or not acc.counters.get("pong_delivered_inside_ping_send"):
+                    # the thread finished its step without the stop being reached: answer afterwards (plain tick + pong)
+                    settle()
+                    pend = W.server.held_pings.pop(0) if W.server.held_pings else None
+                    if pend:
+                        W.server.to_client(A, ("iq", {"id": pend, "type": "result", "from": "s.whatsapp.net"}, [], None))
+                acc.count("tick_pong_races")
             elif ev.startswith("tick-race"):
                 race_k = forced["race_k"] if forced else r.randint(1, 14)
                 racer = PingRacer(race_k)
@@ -799,6 +863,19 @@ def race_sweep(acc, seed, tag, down, interval):
         acc.count("race_sweep_histories")
 
 
+def pong_race_script(acc, seed, tag, interval, reps):
+    """The server's pong arrives while the keep-alive thread is still inside the send of that ping; afterwards every ping is
+    answered in time: no time-out may follow."""
+    for j in range(reps):
+        ev = ["connect-request", "connected", "success"] + ["tick"] * (interval - 1) + ["tick-pong-race"]
+        for _ in range(3):
+            ev += ["tick"] * interval + ["pong"]
+        forced = {"opts": {"interval": interval, "reconnect": False, "passive": False, "double_close_report": False, "reconnect_prop_set": True},
+                  "events": ev, "race_k": 0}
+        one_history(acc, seed, "%s/i%d/%d" % (tag, interval, j), forced)
+        acc.count("pong_race_histories")
+
+
 def shards(tier, seed, nworkers):
     q = tier == "quick"
     nsh = 6 if q else nworkers
@@ -811,6 +888,7 @@ def shards(tier, seed, nworkers):
     for down in ("peer-close", "disconnect-request", "socket-error"):
         for interval in ((1,) if q else (1, 2, 3)):
             specs.append({"kind": "race-sweep", "down": down, "interval": interval})
+    specs.append({"kind": "pong-race", "reps": 4 if q else 60})
     return specs
 
 
@@ -824,6 +902,11 @@ def run(spec, acc):
                 continue
             real_case(acc, spec["seed"], "real/%s/%d/%s" % (spec["dispatcher"], spec["rep"], sc), spec["dispatcher"], sc)
         acc.sample({"real_dispatcher": spec["dispatcher"], "scenarios": REAL_SCENARIOS})
+        return
+    if spec["kind"] == "pong-race":
+        for interval in (1, 2, 3):
+            pong_race_script(acc, spec["seed"], "pongrace", interval, spec["reps"])
+        acc.sample({"pong_race": "pong delivered while the keep-alive thread is inside the send of its ping, then 3 answered pings"})
         return
     if spec["kind"] == "race-sweep":
         race_sweep(acc, spec["seed"], "sweep", spec["down"], spec["interval"])
